@@ -65,9 +65,9 @@ inline auto it_pos(const It& it) -> decltype(simrt::ptr_pos(it.ptr)) { return si
 struct SimLexer
 {
     template<typename Iterator, typename ErrorStream>
-    constexpr auto match(ctpg::match_options, ctpg::source_point sp, Iterator start, Iterator, ErrorStream&)
+    constexpr auto match(ctpg::match_options mo, ctpg::source_point sp, Iterator start, Iterator, ErrorStream&)
     {
-        simrt::LexAnswer a = simrt::lex(it_pos(start), int(sp.line), int(sp.column));
+        simrt::LexAnswer a = simrt::lex(it_pos(start), int(sp.line), int(sp.column), mo.verbose);
         if (a.idx < 0) return ctpg::recognized_term{};
         return ctpg::recognized_term(ctpg::size16_t(a.idx), size_t(a.len));
     }
@@ -123,12 +123,13 @@ struct TokFtor
     uint64_t sdigest = 0; /* structure only: no source points */                                     \
     uint32_t vid = 0;                                                                                \
     bool mf = false; /* moved-from */                                                                \
+    int depth = 0; /* nesting of kept kids (bounded, see Builder::add) */                             \
     std::string text; /* human-readable form (diagnostics) */                                        \
     std::vector<Self> kids;                                                                          \
     Self() : digest(empty_default_digest()), sdigest(empty_default_digest()), text("()") { vid = simrt::node_new(this); } \
     ~Self() { simrt::node_del(this, vid, !mf); }                                                     \
     Self(Self&& o) noexcept                                                                          \
-        : rule(o.rule), digest(o.digest), sdigest(o.sdigest), vid(o.vid), mf(o.mf), text(std::move(o.text)), kids(std::move(o.kids)) \
+        : rule(o.rule), digest(o.digest), sdigest(o.sdigest), vid(o.vid), mf(o.mf), depth(o.depth), text(std::move(o.text)), kids(std::move(o.kids)) \
     {                                                                                                \
         o.mf = true;                                                                                 \
         simrt::node_move(this, vid);                                                                 \
@@ -137,7 +138,7 @@ struct TokFtor
     {                                                                                                \
         if (this == &o) return *this;                                                                \
         simrt::node_assign_over(this, vid, !mf);                                                     \
-        rule = o.rule; digest = o.digest; sdigest = o.sdigest; vid = o.vid; mf = o.mf;               \
+        rule = o.rule; digest = o.digest; sdigest = o.sdigest; vid = o.vid; mf = o.mf; depth = o.depth; \
         text = std::move(o.text); kids = std::move(o.kids);                                          \
         o.mf = true;                                                                                 \
         simrt::node_move(this, vid);                                                                 \
@@ -152,7 +153,7 @@ struct TokFtor
 struct Node
 {
     SIM_NODE_COMMON(Node)
-    Node(const Node& o) : rule(o.rule), digest(o.digest), sdigest(o.sdigest), mf(o.mf), text(o.text), kids(o.kids)
+    Node(const Node& o) : rule(o.rule), digest(o.digest), sdigest(o.sdigest), mf(o.mf), depth(o.depth), text(o.text), kids(o.kids)
     {
         vid = simrt::node_copy(this, o.vid);
     }
@@ -160,7 +161,7 @@ struct Node
     {
         if (this == &o) return *this;
         simrt::node_assign_over(this, vid, !mf);
-        rule = o.rule; digest = o.digest; sdigest = o.sdigest; mf = o.mf; text = o.text; kids = o.kids;
+        rule = o.rule; digest = o.digest; sdigest = o.sdigest; mf = o.mf; depth = o.depth; text = o.text; kids = o.kids;
         vid = simrt::node_copy(this, o.vid);
         return *this;
     }
@@ -207,9 +208,12 @@ namespace detail
             hs = node_digest_add(hs, leaf_digest(lex, 0, 0));
             if constexpr (V::keeps_text)
             {
-                v.text += " '";
-                v.text.append(lex.data(), lex.size());
-                v.text += "'@" + std::to_string(line) + ":" + std::to_string(col);
+                if (v.text.size() + lex.size() < 4096)
+                {
+                    v.text += " '";
+                    v.text.append(lex.data(), lex.size());
+                    v.text += "'@" + std::to_string(line) + ":" + std::to_string(col);
+                }
             }
             ++n;
         }
@@ -220,9 +224,15 @@ namespace detail
             hs = node_digest_add(hs, child.get_sdigest());
             if constexpr (V::keeps_text)
             {
-                v.text += " ";
-                v.text += child.text;
-                v.kids.push_back(std::move(child));
+                // the text is a diagnostic: bounded, or deep nesting would make building it quadratic
+                if (v.text.size() + child.text.size() < 4096) { v.text += " "; v.text += child.text; }
+                else if (v.text.size() < 4096 + 8) v.text += " ...";
+                // kids are kept for a realistic object graph, to a bounded depth: destruction is recursive
+                if (child.depth < 1500)
+                {
+                    if (child.depth + 1 > v.depth) v.depth = child.depth + 1;
+                    v.kids.push_back(std::move(child));
+                }
             }
             ++n;
         }
